@@ -67,7 +67,7 @@ def conic_sag(r, R, k):
 
 
 def gen_config(rng, name, edits=None, vignetting=None, medium=None, contact_stop=None, entry=None, route=None,
-               rescale=None):
+               rescale=None, flat_carry=False):
     """returns dict(name, params, spec, scale, edits) ; scale = characteristic path length (for tolerances).
     edits: None = with probability 1/2 the stigmatic prescription is reached through an edit history
     (see add_edit_history)"""
@@ -257,6 +257,13 @@ def gen_config(rng, name, edits=None, vignetting=None, medium=None, contact_stop
     if rescale:
         sf = rescale if isinstance(rescale, float) else rng.choice([0.4, 2.5, rng.uniform(0.3, 3.0)])
         add_scale_history(cfg, sf)
+    # history class: a flat surface carries the conic before it gets its radius (forced cases only: corpus();
+    # the random stream of the other dimensions is left as it was)
+    if flat_carry:       # 'mode' (random subset of the curved surfaces, one conic at least) or ('mode', 'all')
+        if isinstance(flat_carry, str):
+            add_flat_carry_history(rng, cfg, flat_carry)
+        else:
+            add_flat_carry_history(rng, cfg, flat_carry[0], all_surfaces=True)
     # route by which the Optic object is reached (tools/lensgen.build_via)
     if route is None:
         route = rng.choice(['direct'] * 11 + ['handbuilt'] * 3 + ['reuse'] * 3 + ['roundtrip'] * 3)
@@ -464,6 +471,49 @@ def corpus():
     return out
 
 
+FLAT_CARRY_CONFIGS = ['parab', 'parab_fold', 'ellipsoid', 'cassegrain', 'gregorian', 'planohyp', 'planohyp_fold',
+                      'ellipsoid_lens', 'aplanat', 'aplanat_immersed', 'sphere_cc']
+
+
+def corpus_flat_carry():
+    """fixed cases of the history class `a flat surface carries the conic constant, then receives its radius`
+    (add_flat_carry_history), one per mode and per way the flat state is reached / left; all curved standard surfaces
+    of the instance go through the history"""
+    import random
+    off = dict(edits=False, vignetting=False, medium='air', contact_stop=False, entry='standard', route='direct',
+               rescale=False)
+    items = [
+        ('parab', 'flatten_restore', {}),
+        ('planohyp', 'flat_first_conic_then_radius', {}),
+        ('planohyp', 'flatten_roundtrip_restore', {}),
+        ('ellipsoid', 'flatten_query_restore', {}),
+        ('cassegrain', 'flatten_reconic_restore', {}),
+        ('gregorian', 'flat_first_conic_then_radius', dict(rescale=2.5)),
+        ('planohyp_fold', 'flatten_restore', dict(route='reuse')),
+        ('sphere_cc', 'flatten_restore', {}),
+        ('ellipsoid_lens', 'flatten_roundtrip_restore', {}),
+        ('parab', 'flat_first_conic_then_radius', dict(medium='solid', route='handbuilt')),
+        ('aplanat', 'flatten_query_restore', dict(edits=True)),
+    ]
+    out = []
+    for i, (name, mode, kw) in enumerate(items):
+        cfg = gen_config(random.Random(3000 + i), name, **{**off, **kw, 'flat_carry': (mode, 'all')})
+        if name in IMMERSED:
+            cfg['image_in_glass'] = True
+        cfg['corpus'] = '%s:flat_carry=%s%s' % (name, mode, ''.join(',%s=%s' % kv for kv in sorted(kw.items())))
+        out.append(cfg)
+    return out
+
+
+def random_flat_carry(rng, n):
+    """n seeded instances of the same history class on top of the other (random) dimensions"""
+    out = []
+    for _ in range(n):
+        name = rng.choice(FLAT_CARRY_CONFIGS)
+        out.append(gen_config(rng, name, entry='standard', flat_carry=rng.choice(FLAT_CARRY_MODES)))
+    return out
+
+
 def corpus_virtual():
     import random
     off = dict(edits=False, vignetting=False, medium='air', contact_stop=False, entry='standard', route='direct',
@@ -472,7 +522,24 @@ def corpus_virtual():
     for i, kw in enumerate([dict(contact_stop=True), dict(medium='immersed'), dict(rescale=2.5), dict(route='roundtrip'),
                             dict(edits=True)]):
         cfg = gen_config(random.Random(2000 + i), 'hyperboloid_far', **{**off, **kw})
-        cfg['corpus'] = 'hyperboloid_far:' + ','.join('%s=%s' % kv for kv in sorted(kw.items()))
+        cfg['corpus'] = 'hyperboloid_far:' + ','.join('%s=%s' % (k_, v_[0] if isinstance(v_, tuple) else v_)
+                                                      for k_, v_ in sorted(kw.items()))
+        out.append(cfg)
+    return out
+
+
+def corpus_virtual_flat_carry():
+    """the history class of corpus_flat_carry on the virtual-image configuration"""
+    import random
+    off = dict(edits=False, vignetting=False, medium='air', contact_stop=False, entry='standard', route='direct',
+               rescale=False)
+    out = []
+    for i, kw in enumerate([dict(flat_carry=('flatten_restore', 'all')),
+                            dict(flat_carry=('flat_first_conic_then_radius', 'all'), rescale=0.4),
+                            dict(flat_carry=('flatten_roundtrip_restore', 'all'), medium='immersed')]):
+        cfg = gen_config(random.Random(2100 + i), 'hyperboloid_far', **{**off, **kw})
+        cfg['corpus'] = 'hyperboloid_far:' + ','.join('%s=%s' % (k_, v_[0] if isinstance(v_, tuple) else v_)
+                                                      for k_, v_ in sorted(kw.items()))
         out.append(cfg)
     return out
 
@@ -516,6 +583,7 @@ def add_scale_history(cfg, sf):
 
 
 def apply_edits(optic, edits):
+    """returns the Optic the history ends with (a 'roundtrip' step replaces the object)"""
     for kind, num, value in edits:
         if kind == 'scale':
             optic.scale_system(value)
@@ -527,8 +595,75 @@ def apply_edits(optic, edits):
             optic.set_thickness(value, num)
         elif kind == 'index':
             optic.set_index(value, num)
+        elif kind == 'query':
+            # the lens is USED in its intermediate state (whatever a query caches must follow the later edits)
+            try:
+                optic.trace(0.0, 0.0, WL, 3, 'hexapolar')
+                optic.paraxial.f2()
+            except Exception:      # noqa  (an intermediate state need not be a valid lens)
+                pass
+        elif kind == 'roundtrip':
+            from optiland.optic import Optic
+            optic = Optic.from_dict(optic.to_dict())
         else:
             raise ValueError(kind)
+    return optic
+
+
+FLAT_CARRY_MODES = ('flatten_restore', 'flatten_query_restore', 'flatten_roundtrip_restore', 'flatten_reconic_restore',
+                    'flat_first_conic_then_radius')
+
+
+def add_flat_carry_history(rng, cfg, mode, all_surfaces=False):
+    """history class: a surface is FLAT at some moment of its history while the prescription already gives it a conic
+    constant, and receives its radius afterwards - the conic constant entered by the user must survive on the flat
+    surface.  Applied on top of whatever history cfg already has; every value is taken from the generated stigmatic
+    prescription (cfg['final_spec'] / cfg['spec']).
+      flatten_restore               set_radius(inf), set_radius(R)          (edit and edit back)
+      flatten_query_restore         query, set_radius(inf), query, set_radius(R)
+      flatten_roundtrip_restore     set_radius(inf), to_dict/from_dict, set_radius(R)
+      flatten_reconic_restore       set_radius(inf), set_conic(other), set_conic(k), set_radius(R)
+      flat_first_conic_then_radius  BUILT flat without conic; the last edits are set_conic(k), set_radius(R) in this order
+    returns the list of surface numbers concerned (empty: the class does not apply)"""
+    import copy
+    if not cfg.get('final_spec'):
+        cfg['final_spec'] = copy.deepcopy(cfg['spec'])
+    final = cfg['final_spec']
+    cand = [j for j, s_ in enumerate(final['surfaces'])
+            if math.isfinite(s_['radius']) and s_.get('type', 'standard') == 'standard']
+    conics = [j for j in cand if final['surfaces'][j].get('conic')]
+    if not cand:
+        return []
+    if all_surfaces:
+        picks = cand
+    else:       # at least one conic surface when there is one; spheres (conic 0) go through the same history
+        picks = sorted(set(([rng.choice(conics)] if conics else [rng.choice(cand)]) +
+                           [j for j in cand if rng.random() < 0.5]))
+    edits = list(cfg.get('edits') or [])
+    tail = []
+    for j in picks:
+        num, s1 = j + 1, final['surfaces'][j]
+        R, k = s1['radius'], s1.get('conic', 0.0)
+        if mode == 'flat_first_conic_then_radius':
+            s0 = cfg['spec']['surfaces'][j]
+            s0['radius'] = INF
+            s0.pop('conic', None)
+            edits = [e for e in edits if not (e[0] in ('radius', 'conic') and e[1] == num)]
+            tail += [['conic', num, k], ['radius', num, R]]
+        elif mode == 'flatten_restore':
+            tail += [['radius', num, INF], ['radius', num, R]]
+        elif mode == 'flatten_query_restore':
+            tail += [['query', None, None], ['radius', num, INF], ['query', None, None], ['radius', num, R]]
+        elif mode == 'flatten_roundtrip_restore':
+            tail += [['radius', num, INF], ['roundtrip', None, None], ['radius', num, R]]
+        elif mode == 'flatten_reconic_restore':
+            tail += [['radius', num, INF], ['conic', num, k + rng.choice([-1, 1]) * rng.uniform(0.05, 0.6)],
+                     ['conic', num, k], ['radius', num, R]]
+        else:
+            raise ValueError(mode)
+    cfg['edits'] = edits + tail
+    cfg['flat_carry'] = mode
+    return [j + 1 for j in picks]
 
 
 def build(cfg):
@@ -536,7 +671,7 @@ def build(cfg):
     import lensgen
     warnings.simplefilter('ignore')
     o = lensgen.build_via(cfg['spec'], cfg.get('route', 'direct'), _random.Random(cfg.get('route_seed', 0)))
-    apply_edits(o, cfg.get('edits') or [])
+    o = apply_edits(o, cfg.get('edits') or [])
     if cfg.get('image_in_glass'):
         img = o.surface_group.surfaces[-1]
         img.material_post = img.material_pre
